@@ -255,3 +255,31 @@ def view_of(rng, d: bytes):
     if r < 0.7:
         return memoryview(d)
     return d
+
+
+def pkey(p):
+    """dictionary key for a path given as str, bytes or os.PathLike"""
+    import os
+    return os.path.abspath(os.fsdecode(p))
+
+
+class _PathLike:
+    def __init__(self, p):
+        self._p = p
+
+    def __fspath__(self):
+        return self._p
+
+
+def path_of(rng, path: str):
+    """the same file named the ways open() accepts: str (mostly), pathlib.Path, bytes, another os.PathLike"""
+    import os
+    import pathlib
+    r = rng.random()
+    if r < 0.7:
+        return path
+    if r < 0.82:
+        return pathlib.Path(path)
+    if r < 0.91:
+        return os.fsencode(path)
+    return _PathLike(path)
